@@ -12,7 +12,7 @@ from vlib.nlp import NLP, close, time_like_vars, DMa
 
 ID = "C06"
 LEVEL = "exploration"
-BUDGET = {"quick": (8, 90), "thorough": (16, 1500)}
+BUDGET = {"quick": (8, 90), "thorough": (16, 3000)}
 RULE = ("Generated grid configurations: class in {Uniform, Geometric(growth 1/1.5/2/4, local/global), Function(power rule), Density(a+b tau), DenseEdges, Free} x localize_t0 x localize_T x "
         "min/max in {default, value} x N 1..8 x M 1..4 x t0/T each fixed | FreeTime | parameter x method SS|MS|DC. The grid's own (linear) NLP rows are solved for the local time "
         "variables at chosen horizon values; oracles: rows consistent, unique solution for fixed-pattern grids, control grid == t0 + T * closed-form normalised locations "
